@@ -77,8 +77,16 @@ def make_files(tier, seed, mdl):
 
     files = []
     nfiles = 1500 if tier == "quick" else 20000
+    for a in (b"user@example.com", b'"x@y #z"@example.com', "иван@почта.рф".encode(), b"a@[1.2.3.4]"):
+        for suf in (b" #x", b"#x", b" # remark", b"\t#x", b" ;x", b" //x", b" (c)", b" -- x", b"  #", b" #", b"# ", b" %x", b" !x"):
+            shapes.append(a + suf)
+            shapes.append(a[:3] + suf + a[3:])
     edge = "".join(chr(c) for c in (0xa0, 0xff, 0x100, 0x7ff, 0x800, 0x801, 0xfff, 0x1000, 0xd7ff, 0xe000, 0xfffd, 0x10000, 0x10001, 0x10ffff))
-    fixed = [(edge + "@a.com\n").encode(), ("x" + edge[::-1] + "y@b.org").encode(), ("q@" + edge[:6] + ".com\r\n").encode(),
+    notable = [0xa0, 0xad, 0x34f, 0x61c, 0x180e, 0x200b, 0x200c, 0x200d, 0x200e, 0x200f, 0x2028, 0x2029, 0x202a, 0x202e, 0x2060, 0x2066, 0x2069,
+               0x3000, 0x3002, 0xfe00, 0xfe0f, 0xfeff, 0xff0e, 0xfff9, 0xfffd, 0xe000, 0x1f600, 0xe0001, 0xe007f, 0x10fffd]
+    fixed = [b"".join(b"a" + chr(c).encode("utf-8") + b"b@x.com\n" for c in notable), "".join(chr(c) for c in notable).encode("utf-8") + b"\n",
+             b"\n".join(a for a in shapes) + b"\n",
+             (edge + "@a.com\n").encode(), ("x" + edge[::-1] + "y@b.org").encode(), ("q@" + edge[:6] + ".com\r\n").encode(),
              "".join(c + "a" for c in edge).encode() + b"\n" + edge.encode() * 40 + b"\n", b"", b"\n", b"\n\n", b"a@b.com\n\nx@y.com\n", b"a@b.com\n \n", b" \n", b"\t", b"#only comment", b"#c\n#d\n", b"a@b.com", b"a@b.com\r\n",
              b"\r\n", b"a@b.com\r", b"\r", b" a@b.com \n", b"a" * 3000 + b"\n", b"\x01" * 700 + b"@b.com\n", b"a\xff@b.com\n",
              b"\n" * 50, ("é" * 3000).encode() + b"@a.com\n", b"x@y.zz\n" * 200]
